@@ -196,13 +196,13 @@ func faultSite(stack string) string {
 var genericRe = regexp.MustCompile(`\[\.\.\.\]|\.func\d+(\.\d+)*`)
 
 var (
-	nameRe = regexp.MustCompile(`c09[sfp]\d+`)
+	nameRe = regexp.MustCompile(`c09[sfpv]\d+`)
 	hexRe  = regexp.MustCompile(`\b(0x)?[0-9a-f]{8,16}\b`)
 )
 
 // digest normalises a text for Outcome strings (no per-process names, no addresses).
 func digest(s string, n int) string {
-	s = nameRe.ReplaceAllString(s, "c09X")
+	s = nameRe.ReplaceAllString(s, "c09")
 	s = hexRe.ReplaceAllString(s, "H")
 	if n < len(s) {
 		s = s[:n]
